@@ -123,6 +123,15 @@ let flow_of (l : sexp list) : flow_spec =
                 split = "true")
   | _ -> failwith "bad flow"
 
+let pyval_of (x : sexp) : pyval =
+  match x with
+  | L [A "num"; A q] -> PyNum (q_of_string q)
+  | L [A "graph"; e] -> PyGraph (expr_of e)
+  | L [A "str"; s] -> PyStr (str s)
+  | L [A "none"] -> PyNone
+  | L (A "list" :: qs) -> PyList (List.map (function A q -> q_of_string q | _ -> failwith "bad pylist") qs)
+  | _ -> failwith "bad pyval"
+
 let strat_of (l : sexp list) : strat =
   match l with
   | [A kind; name; L strata; L comps; L (A "split" :: split); L (A "fadj" :: fadj); L (A "iadj" :: iadj); L [A "mix"; mix]] ->
@@ -154,6 +163,8 @@ let op_of (x : sexp) : op =
   | L (A "arraypop" :: es) -> OpArrayPop (List.map expr_of es)
   | L (A "flow" :: rest) -> OpFlow (flow_of rest)
   | L [A "udeath"; name; e] -> OpUDeath (str name, expr_of e)
+  | L (A "flowdyn" :: v :: rest) -> OpFlowDyn (pyval_of v, flow_of rest)
+  | L [A "udeathdyn"; name; v] -> OpUDeathDyn (str name, pyval_of v)
   | L (A "strat" :: rest) -> OpStrat (strat_of rest)
   | L [A "rebalance"; sname; filt; props] -> OpRebalance (str sname, strata_of filt, kv_exprs props)
   | L [A "req"; name; A save; r] -> OpRequest (str name, request_of r, save = "true")
